@@ -98,6 +98,13 @@ namespace foonathan
                     return first_ == nullptr;
                 }
 
+#ifdef FOONATHAN_MEMORY_VERIF
+                // read-only structural self check (verification hook)
+                // returns nullptr if the list is consistent, else a description;
+                // reachable is set to the number of nodes found by walking the list
+                const char* verif_walk(std::size_t& reachable) const noexcept;
+#endif
+
             private:
                 void insert_impl(void* mem, std::size_t size) noexcept;
 
@@ -197,6 +204,13 @@ namespace foonathan
                 {
                     return capacity_ == 0u;
                 }
+
+#ifdef FOONATHAN_MEMORY_VERIF
+                // read-only structural self check (verification hook)
+                // returns nullptr if the list is consistent, else a description;
+                // reachable is set to the number of nodes found by walking the list
+                const char* verif_walk(std::size_t& reachable) const noexcept;
+#endif
 
             private:
                 // returns previous pointer
